@@ -1091,6 +1091,7 @@ func (a *APK) cachedPackage(ctx context.Context, pkg InstallablePackage, cacheDi
 		signatureHash := sha1.Sum(signatureData) //nolint:gosec // this is what apk tools is using
 		exp.SignatureHash = signatureHash[:]
 	}
+	verifhook.Point("hit.probe " + cacheDir)
 
 	f, err := os.Open(ctl)
 	if err != nil {
